@@ -140,6 +140,17 @@ theorem fine_escape_report_is_lone_esc (fls : List FLabel) (f : FSys) (out : Lis
     case gone => cases hs
     all_goals (simp only [Option.some.injEq, Prod.mk.injEq] at hs; exact absurd hs.2.symm ho)
 
+/-- **The mutex is never held for ever**: in every reachable state in which the main goroutine is
+    neither blocked in the read nor finished, its next statement is enabled, or — it is waiting in
+    `Lock` — the callback that holds the mutex can take its next statement (and a callback's critical
+    section is at most five statements, none of which can block in this model: `emit` is the channel
+    send, see the consumer assumption). -/
+theorem fine_no_deadlock (T : Table) (hT : TimerOk T) (fls : List FLabel) (f : FSys) (out : List Seq)
+    (h : FSys.run T FSys.init fls = some (f, out)) (h1 : f.mpc ≠ .inRead) (h2 : f.mpc ≠ .done) :
+    (FSys.step T f .main).isSome = true ∨ ∃ i, (FSys.step T f (.cb i)).isSome = true := by
+  obtain ⟨hinv, _, _⟩ := reach_sim T hT fls f out h
+  exact no_deadlock T f hinv h1 h2
+
 /-! ### non-vacuity: concrete interleavings -/
 
 /-- `ESC`, the loop blocks in the next read, the timer expires, its callback runs statement by
@@ -161,6 +172,13 @@ example : (FSys.run handTable FSys.init
      .readRet (.rune 0x5B), .main, .main, .main, .main, .main, .cb 0, .cb 0, .cb 0,
      .main, .readRet (.rune 0x41), .main, .main, .main, .main, .main]).map (·.2) =
     some [.csi [] [] 0x41] := by decide
+
+/-- The callback takes the mutex first: the main goroutine's `Lock` is not enabled, the callback can move. -/
+example : (FSys.run handTable FSys.init
+    [.main, .readRet (.rune 0x1B), .main, .main, .main, .main, .main, .main, .expire,
+     .readRet (.rune 0x5B), .main, .cb 0]).map
+      (fun x => ((FSys.step handTable x.1 .main).isSome, (FSys.step handTable x.1 (.cb 0)).isSome)) =
+    some (false, true) := by decide
 
 /-- A callback started before the end of input and run after `close(p.sequences)`: nothing is sent. -/
 example : (FSys.run handTable FSys.init
